@@ -38,6 +38,7 @@ const (
 	VMap      // an immutable map with string keys (package-level table): entries in F
 	VFieldPtr // pointer to receiver byte I (hybrid runs)
 	VVarPtr   // pointer to a local variable (hybrid runs)
+	VFunc     // a package-level function used as a value (Fn)
 )
 
 type Val struct {
@@ -50,6 +51,8 @@ type Val struct {
 	B []Bit
 	// VVarPtr: pointer to a local variable of an enclosing evaluation frame
 	cell *varCell
+	// VFunc
+	Fn *types.Func
 }
 
 type varCell struct {
@@ -1098,6 +1101,9 @@ func (e *cEnv) eval(x ast.Expr) (Val, error) {
 		if v, ok := e.vars[obj]; ok {
 			return v, nil
 		}
+		if fo, isFn := obj.(*types.Func); isFn && fo.Pkg() == e.p.P.Types && e.p.FuncObj[fo] != nil && e.p.FuncObj[fo].Recv == nil {
+			return Val{K: VFunc, Fn: fo}, nil
+		}
 		if pv, isVar := obj.(*types.Var); isVar && obj.Parent() == e.p.P.Types.Scope() {
 			// package-level table of constants (never written: R14.globals)
 			_, isSlice := pv.Type().Underlying().(*types.Slice)
@@ -1486,6 +1492,10 @@ func (e *cEnv) evalCall(n *ast.CallExpr) (Val, error) {
 			return Val{}, err
 		}
 		b, ok := tv.Type.Underlying().(*types.Basic)
+		if !ok && isUint8(tv.Type) {
+			// T(x) for a type parameter T ~uint8
+			b, ok = types.Typ[types.Uint8], true
+		}
 		if !ok {
 			return Val{}, undecidedf(n, "conversion to %s", tv.Type)
 		}
@@ -1600,6 +1610,14 @@ func (e *cEnv) evalCall(n *ast.CallExpr) (Val, error) {
 		}
 	}
 	if fn == nil {
+		// a call through a parameter or local that holds a package-level function
+		if id, ok := n.Fun.(*ast.Ident); ok {
+			if fv, has := e.vars[info.Uses[id]]; has && fv.K == VFunc && fv.Fn != nil {
+				fn = fv.Fn
+			}
+		}
+	}
+	if fn == nil {
 		return Val{}, undecidedf(n, "dynamic call")
 	}
 	var args []Val
@@ -1663,6 +1681,17 @@ func (e *cEnv) evalCall(n *ast.CallExpr) (Val, error) {
 	fd := e.p.FuncObj[fn]
 	if fd == nil {
 		return Val{}, undecidedf(n, "no declaration for %s", fn.Name())
+	}
+	// f(a, b, c) for f(xs ...T): the surplus arguments arrive as one list
+	if sig, ok := fn.Type().(*types.Signature); ok && sig.Variadic() && !n.Ellipsis.IsValid() {
+		k := sig.Params().Len() - 1
+		if len(args) >= k {
+			rest := Val{K: VList, T: append([]Val(nil), args[k:]...)}
+			if len(rest.T) == 0 {
+				rest = Val{K: VNil}
+			}
+			args = append(append([]Val(nil), args[:k]...), rest)
+		}
 	}
 	if fd.Recv != nil {
 		// method on the object: same bytes
@@ -2051,6 +2080,19 @@ func stdlibSummary(fn *types.Func, args []Val, at ast.Node) (Val, bool, error) {
 // pkgVarWritten: some statement of the package assigns to the variable, to one
 // of its elements or fields (including init functions).
 func (p *Pkg) pkgVarWritten(v *types.Var) bool {
+	if p.pkgVarWritten0(v) {
+		return true
+	}
+	_, isArr := v.Type().Underlying().(*types.Array)
+	if isRefLike(v.Type()) || isArr {
+		w, _ := p.refMayBeWritten(v)
+		return w
+	}
+	return false
+}
+
+// pkgVarWritten0: the writes whose target is textually rooted at the variable.
+func (p *Pkg) pkgVarWritten0(v *types.Var) bool {
 	if p.varWritten == nil {
 		p.varWritten = map[*types.Var]bool{}
 		root := func(e ast.Expr) *types.Var {
